@@ -56,6 +56,8 @@ def runWin (o : Oracle) : P → List Op → List String
     let r := implStep o p op
     s!"{r.1.from_},{r.1.pos},{r.1.used}" :: runWin o r.1 ops
 
+def prefixes : List String := ["parser."]
+
 def handle (op : String) (fs : List (String × String)) : String :=
   match getField fs "input" >>= fromHex, getField fs "chunks" >>= parseNatList,
         (getField fs "ops").map (fun s => if s.isEmpty then [] else s.splitOn ";") with
